@@ -348,3 +348,37 @@ hx_set_ncopts(int32 v)
     H4_ncopts = v;
     return old;
 }
+
+/* Enumerate the file labels (islabel) or file descriptions with the documented DFAN loop: length, then text, first
+ * call with isfirst = 1.  Stores (length, byte sum) per annotation; returns the count, -2 if the loop does not end
+ * within limit iterations, -3 if a text cannot be read after its length was reported. */
+int32
+hx_dfan_file_enum(int32 fid, int32 islabel, int32 *o, int32 max, int32 limit)
+{
+    int32 n = 0;
+    for (;;) {
+        int   first = (n == 0);
+        int32 len   = islabel ? DFANgetfidlen(fid, first) : DFANgetfdslen(fid, first);
+        char *buf;
+        int32 got, sum = 0, i;
+        if (len < 0)
+            break;
+        buf = (char *)calloc((size_t)len + 2, 1);
+        got = islabel ? DFANgetfid(fid, buf, len + 1, first) : DFANgetfds(fid, buf, len + 1, first);
+        if (got < 0) {
+            free(buf);
+            return -3;
+        }
+        for (i = 0; i < len; i++)
+            sum = (sum + (unsigned char)buf[i] * (i % 7 + 1)) & 0x7fffffff;
+        free(buf);
+        if (n < max) {
+            o[2 * n]     = len;
+            o[2 * n + 1] = sum;
+        }
+        n++;
+        if (n > limit)
+            return -2;
+    }
+    return n;
+}
